@@ -2,5 +2,5 @@ SPECIFICATION Spec
 CONSTANTS
   Profile = "word"
   MaxTok = 12
-  MaxUnits = 1
+  MaxUnits = 2
 INVARIANT GenInv
